@@ -62,11 +62,18 @@ def folds : List FoldFn :=
    { name := "notConst", entry := .unaryOp, tok := .not, toInt := false, bothConst := false,
      typed := [(.bool, .not)] }]
 
-/-- interp/op.go quoConst: integer quotient (QUO_ASSIGN) exactly when the node type is untyped and integer -/
+/-- interp/op.go quoConst: integer quotient (QUO_ASSIGN) exactly when both operand constants are of kind Int
+    (since the repair of F48; before: when the node type, copied from the context, was untyped and integer) -/
 def quoSwitch : QuoSwitch :=
-  { cond := "n.typ.untyped && isInt(n.typ.rtype)", thenTok := .quoAssign, elseTok := .quo }
+  { cond := "c0.Kind() == constant.Int && c1.Kind() == constant.Int", rule := .operandKinds,
+    thenTok := .quoAssign, elseTok := .quo }
 
-def evalFacts : EvalFacts := { constOp := constOp, folds := folds, quo := quoSwitch }
+def evalFacts : EvalFacts := { constOp := constOp, folds := folds, quo := quoSwitch, fixSkipsConst := true }
+
+/-- the facts before the repair of F48 (the quotient switch looks at the node type) -/
+def evalFactsBeforeF48 : EvalFacts :=
+  { evalFacts with quo := { cond := "n.typ.untyped && isInt(n.typ.rtype)", rule := .nodeType,
+                            thenTok := .quoAssign, elseTok := .quo } }
 
 /-- interp/gta.go, interp/cfg.go: `if childPos(n) == len(n.anc.child)-1 { sc.iota = 0 } else { sc.iota++ }`;
     interp/ast.go: an implicit spec duplicates type and expression of the previous spec -/
@@ -94,7 +101,7 @@ def sourceHashes : List (String × String) :=
    ("addConst", "5a151a0c68652493"),
    ("subConst", "88e864a6dda66610"),
    ("mulConst", "38a3587d98a6fd91"),
-   ("quoConst", "67e6b58c7dbfbc36"),
+   ("quoConst", "e5a0e05457fa92a7"),
    ("remConst", "50f24c17fc2965ee"),
    ("andConst", "2eba4fc5353e77b7"),
    ("orConst", "5d6f0134042668e8"),
@@ -108,7 +115,7 @@ def sourceHashes : List (String × String) :=
    ("notConst", "768c70fd2e84abf5"),
    ("itype.defaultType", "4806c44dfe2828d6"),
    ("scope.fixType", "4b4989a40cb13f43"),
-   ("fixUntyped", "57d1e97e6097f661"),
+   ("fixUntyped", "8ecf4a4503fdc65a"),
    ("isBoolAction", "87bd50a0e7605485"),
    ("lenConst", "3584bf9234f0180d"),
    ("ast.implicitRepetition", "efddcebc2553cc82")]
